@@ -73,6 +73,26 @@ type world struct {
 	firstOK  bool
 	dlvs     []dlv
 	lastEv   time.Time // time of the last dial / failure / handshake event (steering only)
+	budget   int       // redial budget of the transport under test
+	consec   int       // consecutive failed redial attempts
+	onExhaust func()   // called (no locks held) when consec reaches budget
+}
+
+// attempt records the outcome of one redial attempt.
+func (w *world) attempt(ok bool) {
+	w.mu.Lock()
+	fire := false
+	if ok {
+		w.consec = 0
+	} else {
+		w.consec++
+		fire = w.budget > 0 && w.consec >= w.budget && w.onExhaust != nil
+	}
+	f := w.onExhaust
+	w.mu.Unlock()
+	if fire {
+		f()
+	}
 }
 
 func newWorld() *world { return &world{} }
@@ -113,6 +133,9 @@ func (w *world) Dial(cfg transport.DialConfig) (transport.Transport, error) {
 		time.Sleep(st.Latency)
 	}
 	rec := dialRec{Seq: w.seq.Add(1), TransportID: string(cfg.TransportID), Reconnect: cfg.Reconnect, Redial: redial, Inc: -1}
+	if st.Err && redial {
+		defer w.attempt(false) // runs after the unlock below
+	}
 	w.mu.Lock()
 	defer w.mu.Unlock()
 	w.lastEv = time.Now()
@@ -279,6 +302,9 @@ func (c *inc) Read() ([]byte, error) {
 		if c.hsErr {
 			c.mu.Unlock()
 			c.w.touch()
+			if hs {
+				c.w.attempt(false)
+			}
 			return nil, errInjHs
 		}
 		if !hs && (c.readFail || c.readFailAfter == 0) {
@@ -302,6 +328,9 @@ func (c *inc) Read() ([]byte, error) {
 			c.w.dlvs = append(c.w.dlvs, d)
 			c.w.lastEv = time.Now()
 			c.w.mu.Unlock()
+			if hs {
+				c.w.attempt(true)
+			}
 			return append([]byte(nil), m...), nil
 		}
 		if hs {
